@@ -217,7 +217,7 @@ Definition run_fn (f : fn) (a : list (list Q)) (k : nkind) (sc : list Q) (fl : l
   | FRoots =>
       (* sc = [re; im; n], fl = [t] with (r, t) = cmath.polar(c) *)
       let n := Qnum (S 2%nat) in
-      MAngles (map (fun kk => m_root_angle float FO (L 0%nat) (mkf kk 0) (mkf n 0)) (zrange n))
+      MAngles (m_roots_angles float FO (L 0%nat) (Z.to_nat n))
   end.
 
 (* one call: model answer, new state (boxes created / padded) *)
